@@ -6,6 +6,8 @@ import (
 	"strings"
 
 	"github.com/wokdav/gopki/generator/config"
+	"github.com/wokdav/gopki/generator/db"
+	"github.com/wokdav/gopki/generator/db/filesystem"
 
 	"verif/mc/drive"
 	"verif/mc/engine"
@@ -124,6 +126,9 @@ func c09Enumerate(tier string, yield func(any)) {
 	}
 	for _, p := range profs {
 		for _, s := range subjs {
+			ca := p
+			ca.Kind, ca.HasList, ca.Subject = "api", true, s
+			yield(&ca)
 			for pos := 0; pos < 3; pos++ {
 				c := p
 				c.Kind, c.HasList, c.Subject, c.Pos = "pipe", true, s, pos
@@ -202,6 +207,10 @@ func c09Exec(x *engine.Ctx, cc any) {
 		c09Pipe(x, c)
 		return
 	}
+	if c.Kind == "api" {
+		c09API(x, c)
+		return
+	}
 	prof := c09Profile(c)
 	one := func(s []string) {
 		rdn, err := config.ParseRDNSequence(c09SubjectString(s))
@@ -266,6 +275,88 @@ func c09Exec(x *engine.Ctx, cc any) {
 // c09Pipe: 3-entity chain root -> mid -> leaf; entity at Pos carries the
 // profile and the subject under test. Rejected => the run errors before
 // anything is written.
+// c09API: the same verdicts through db.AddAndSign (library interface): a settled entity under a profile without
+// subject rules is fetched, pointed at the profile under test and signed again with overwrite; and a new alias is
+// added under that profile. A rejected certificate gives an error and no artifact is written or changed.
+func c09API(x *engine.Ctx, c *c09Case) {
+	prof := &refcfg.ProfileCfg{Path: "prof.yaml", Name: "p", SubjAttrs: &refcfg.SubjectAttributes{}}
+	if c.AllowOther {
+		prof.SubjAttrs.AllowOther = refcfg.B(true)
+	}
+	for i, a := range c.Attrs {
+		sa := refcfg.SubjAttr{Attribute: a}
+		if c.Optional[i] {
+			sa.Optional = refcfg.B(true)
+		}
+		prof.SubjAttrs.Attributes = append(prof.SubjAttrs.Attributes, sa)
+	}
+	d := &Dir{Profiles: []*refcfg.ProfileCfg{prof, {Path: "open.yaml", Name: "open"}},
+		Certs: []*refcfg.CertCfg{{Path: "ee.yaml", Subject: c09SubjectString(c.Subject), KeyAlg: "P-224", Profile: "open"}}}
+	w := simfs.New(simfs.TickPerWrite)
+	d.Render(w)
+	if r0 := drive.Run(w, drive.Default, nil); !r0.OK() {
+		x.Violation("C09/api/first-run-failed", fmt.Sprintf("%v %s", r0.Err(), r0.Panic))
+		return
+	}
+	want, _, reason := c09Model(c, c.Subject)
+	x.Nontrivial(fmt.Sprintf("api %v %v %v %v", c.Attrs, c.Optional, c.AllowOther, c.Subject))
+	for mode := 0; mode < 2; mode++ {
+		w2 := w.Clone()
+		fsdb := filesystem.NewFilesystemDatabase(w2)
+		if err := fsdb.Open(); err != nil {
+			x.Violation("C09/api/open-failed", err.Error())
+			return
+		}
+		cfg, err := fsdb.GetConfig("ee")
+		if err != nil || cfg == nil {
+			fsdb.Close()
+			x.Violation("C09/api/no-config", fmt.Sprint(err))
+			return
+		}
+		nc := *cfg
+		nc.Profile = "p"
+		how := "stored entity pointed at the profile, overwrite"
+		if mode == 1 {
+			nc.Alias = "fresh"
+			how = "new alias under the profile"
+		}
+		before := w2.Clone()
+		w2.BeginRun(nil)
+		var aerr error
+		var panicked string
+		func() {
+			defer func() {
+				if r := recover(); r != nil {
+					panicked = fmt.Sprint(r)
+				}
+			}()
+			_, aerr = db.AddAndSign(fsdb, nc, mode == 0)
+		}()
+		fsdb.Close()
+		x.Transition(1)
+		if panicked != "" {
+			x.Violation("C09/api/panic", panicked)
+			continue
+		}
+		// "before anything is generated": artifacts; that the add step stores the configuration it was given is not at issue
+		var changed []string
+		for _, df := range simfs.Diff(before, w2) {
+			if strings.HasSuffix(df, ".pem") {
+				changed = append(changed, df)
+			}
+		}
+		if !want && (aerr == nil || len(changed) != 0) {
+			x.Violation("C09/validate/accepts a subject the profile forbids reason="+reason+fmt.Sprintf(" allowOther=%v (AddAndSign)", c.AllowOther),
+				fmt.Sprintf("%s: profile attrs=%v optional=%v allowOther=%v, subject %q: error %v, files changed %v", how, c.Attrs, c.Optional, c.AllowOther, c09SubjectString(c.Subject), aerr, changed))
+		}
+		if want && aerr != nil {
+			x.Violation(fmt.Sprintf("C09/validate/rejects a subject the profile allows allowOther=%v (AddAndSign)", c.AllowOther),
+				fmt.Sprintf("%s: profile attrs=%v optional=%v allowOther=%v, subject %q: %v", how, c.Attrs, c.Optional, c.AllowOther, c09SubjectString(c.Subject), aerr))
+		}
+	}
+	x.Outcome("api")
+}
+
 func c09Pipe(x *engine.Ctx, c *c09Case) {
 	d := &Dir{}
 	prof := &refcfg.ProfileCfg{Path: "prof.yaml", Name: "p", SubjAttrs: &refcfg.SubjectAttributes{}}
@@ -376,7 +467,7 @@ func init() {
 	register(&engine.Check{
 		ID:          "C09",
 		Level:       "model_checking",
-		Rule:        "every profile = (attribute list of length 0..4 over {CN,O,C,1.2.3.4} x optional flag) x allowOther, plus the absent list (9363 profiles) x every subject of length 0..5 over {CN,O,C,1.2.3.4,L} (3905), and the same product over {1.2.3.4, 2.5.4.97, CN} with subjects over those plus L (3108 profiles x 1364 subjects): config.Validate on the real parsed RDN sequence vs. the reference predicate transcribed from the statement, one profile object shared by all its subjects as in a run and compared with its definition after every verdict, every verdict asked for twice on the same objects; plus 7 profiles x 9 subjects x 3 positions of the constrained entity in a root->mid->leaf chain through the whole file pipeline (rejected => planning error, empty write log), on a fresh directory, with a 60 / 80 / 300 KiB comment block in the profile file in front of its subject rules or at its top, and on a directory first generated under a profile of the same name without subject rules and then run with default / -m only / all four reasons / -a; and three forbidden subjects with the read of the profile file breaking off after every possible number of bytes (the subject must not be certified, whatever arrived). Pairs are distinct by construction; states = profiles, transitions = Validate calls / runs",
+		Rule:        "every profile = (attribute list of length 0..4 over {CN,O,C,1.2.3.4} x optional flag) x allowOther, plus the absent list (9363 profiles) x every subject of length 0..5 over {CN,O,C,1.2.3.4,L} (3905), and the same product over {1.2.3.4, 2.5.4.97, CN} with subjects over those plus L (3108 profiles x 1364 subjects): config.Validate on the real parsed RDN sequence vs. the reference predicate transcribed from the statement, one profile object shared by all its subjects as in a run and compared with its definition after every verdict, every verdict asked for twice on the same objects; plus 7 profiles x 9 subjects x 3 positions of the constrained entity in a root->mid->leaf chain through the whole file pipeline (rejected => planning error, empty write log), on a fresh directory, with a 60 / 80 / 300 KiB comment block in the profile file in front of its subject rules or at its top, and on a directory first generated under a profile of the same name without subject rules and then run with default / -m only / all four reasons / -a; the same 7 x 9 through db.AddAndSign (a settled entity fetched, pointed at the profile and signed again with overwrite; a new alias under the profile): a rejected certificate gives an error and no artifact is written or changed; and three forbidden subjects with the read of the profile file breaking off after every possible number of bytes (the subject must not be certified, whatever arrived). Pairs are distinct by construction; states = profiles, transitions = Validate calls / runs",
 		Bound:       map[string]string{"profile length": "<=4", "subject length": "<=5", "alphabet": "3 short names + 1 custom OID + 1 foreign attribute"},
 		Assumptions: []string{"profile attributes that the schema allows but no table resolves (PC, DC, T, UID, MAIL) are outside the statement"},
 		Budget:      budgets(quickBudget, thoroughBudget),
